@@ -600,6 +600,7 @@ pub fn sweep_family(seed: u64, f: u64, out: &mut SweepOut) {
         simdoc::set_personality(Personality(repr - 1));
     }
     let b = DocBox::new(&doc, sim_repr(repr), 0);
+    let before = doc.to_string();
     for _ in 0..20 {
         let t = rng.weighted(&[3, 4, 3]);
         let mut q = g.query(&mut rng, t);
@@ -609,15 +610,21 @@ pub fn sweep_family(seed: u64, f: u64, out: &mut SweepOut) {
             2 => q = gen::invalidate(&mut rng, &q),
             _ => {}
         }
-        let dis = std::panic::catch_unwind(std::panic::AssertUnwindSafe(|| match &b.inner {
-            DocInner::V(d) => {
-                let t = obs::triple(d, &b.locs, &q);
-                (t.disagreement(), t.w.as_ref().map(|v| v.len()).ok())
+        let dis = std::panic::catch_unwind(std::panic::AssertUnwindSafe(|| {
+            let (mut d, n) = match &b.inner {
+                DocInner::V(d) => {
+                    let t = obs::triple(d, &b.locs, &q);
+                    (t.disagreement(), t.w.as_ref().map(|v| v.len()).ok())
+                }
+                DocInner::S(d) => {
+                    let t = obs::triple(d, &b.locs, &q);
+                    (t.disagreement(), t.w.as_ref().map(|v| v.len()).ok())
+                }
+            };
+            if d.is_none() && b.to_json() != before {
+                d = Some("the document changed during evaluation".to_string());
             }
-            DocInner::S(d) => {
-                let t = obs::triple(d, &b.locs, &q);
-                (t.disagreement(), t.w.as_ref().map(|v| v.len()).ok())
-            }
+            (d, n)
         }));
         out.pairs += 1;
         match dis {
@@ -813,7 +820,8 @@ pub fn gen_corpus_with(seed: u64, n_fam: usize, q_per_fam: usize, adv: bool) -> 
             // the shape the extension functions, regex filters and root-dependent filters are selective on
             base = json!({"elems": [gen::scalar(&mut rng), "a", "ab", ["a", "b"], ["x"], {"a": "xay", "b": 1, "re": "x.y"}, 2, 0], "list": ["a", "b", 1], "x": {"a": "ab", "b": [1, 2, 3]}, "a": base,
                 "flag": rng.chance(1, 2), "lim": rng.range(0, 2), "re": *rng.pick(gen::PATTERNS),
-                "long": (0..*rng.pick(&[9i64, 12, 17, 33, 40])).collect::<Vec<i64>>()});
+                "long": (0..*rng.pick(&[9i64, 12, 17, 33, 40])).collect::<Vec<i64>>(),
+                "names": ["d", "a", "c", "b", "z", "k", "e", "aa", "ab", "xay"]});
         }
         let mut fam = vec![];
         let mut push = |v: &Value, contents: &mut Vec<String>| -> usize {
